@@ -12,6 +12,7 @@ FUNCS = ["client::pool::idle::IdleConnections::{push,pop,len,is_empty,clear}", "
 BOUNDS = ("idle lists of 0..3 entries (shape concrete per instance); push instants symbolic non-decreasing (secs<=100, nanos<1e9), pop instant symbolic later (secs<=200); "
           "each entry open/closed symbolic; idle_timeout None or Some(any (secs<=50,nanos<1e9)) including zero; unwind 5")
 OUTSIDE = "whether hyper's SendRequest::is_ready() is a faithful 'open' signal (HttpConnection::is_open); histories longer than one pop on a list (each pop is a step from an arbitrary list)"
+TIMEOUT = {"quick": 300, "thorough": 1800}
 ASSUMPTIONS = ["std::time::Instant::now replaced by a harness-controlled (secs,nanos) clock; the stub itself is validated by c05_clock_stub_sane",
                "entries are pushed in non-decreasing time order (Instant is monotonic)"]
 
@@ -26,7 +27,7 @@ def harnesses(tier, seed):
                         desc={"entries": ni, "idle_timeout": "Some(symbolic)" if to else "None", "instants": "symbolic", "open": "symbolic"}, funcs=FUNCS[:2]))
     for ni in (0, 1, 2):
         for to in (0, 1):
-            q = "quick" if ni == 1 and to == 1 else "thorough"
+            q = "thorough"
             for wb in (0, 1):
                 if ni == 2 and (wb == 1 or to == 0):
                     continue
